@@ -13,7 +13,7 @@
      rfc t                Rfc3986.v: the RFC production as a regular expression; matches = its denotation.
      bytes_ok s           every element of s is < 256. *)
 From Coq Require Import ZArith.
-From PegtlV Require Import Base Grammar Engine ExactSound Regex RegexIncl Rfc3986 UriModel UriProof.
+From PegtlV Require Import Base Grammar Engine ExactSound Regex RegexIncl Rfc3986 UriModel UriProof UriSoundURI UriSoundAbs UriSoundRef.
 From PegtlV Require IntegerSpec.
 
 (* ---- the specification-side recogniser is exact (this is the oracle the check extracts) ---- *)
@@ -48,15 +48,15 @@ Proof. exact UriProof.sound_IPv6address. Qed.
 Print Assumptions C20_sound_IPv6address.
 
 Theorem C20_sound_URI : forall s, bytes_ok s -> uri_accepts TURI s -> matches (rfc TURI) s.
-Proof. exact UriProof.sound_URI. Qed.
+Proof. exact UriSoundURI.sound_URI. Qed.
 Print Assumptions C20_sound_URI.
 
 Theorem C20_sound_absolute_URI : forall s, bytes_ok s -> uri_accepts Tabsolute_URI s -> matches (rfc Tabsolute_URI) s.
-Proof. exact UriProof.sound_absolute_URI. Qed.
+Proof. exact UriSoundAbs.sound_absolute_URI. Qed.
 Print Assumptions C20_sound_absolute_URI.
 
 Theorem C20_sound_URI_reference : forall s, bytes_ok s -> uri_accepts TURI_reference s -> matches (rfc TURI_reference) s.
-Proof. exact UriProof.sound_URI_reference. Qed.
+Proof. exact UriSoundRef.sound_URI_reference. Qed.
 Print Assumptions C20_sound_URI_reference.
 
 (* ---- completeness is FALSE for the URI forms: "//1.2.3.4a" is an RFC URI-reference (host = reg-name) that
@@ -66,6 +66,17 @@ Theorem C20_complete_refuted :
   exists s, bytes_ok s /\ matches (rfc TURI_reference) s /\ uri_rejects TURI_reference s /\ ~ uri_accepts TURI_reference s.
 Proof. exact UriProof.complete_refuted. Qed.
 Print Assumptions C20_complete_refuted.
+
+(* the same defect on "a://1.2.3.4a" for the other two URI forms *)
+Theorem C20_complete_refuted_URI :
+  exists s, bytes_ok s /\ matches (rfc TURI) s /\ uri_rejects TURI s /\ ~ uri_accepts TURI s.
+Proof. exact UriProof.complete_refuted_URI. Qed.
+Print Assumptions C20_complete_refuted_URI.
+
+Theorem C20_complete_refuted_absolute_URI :
+  exists s, bytes_ok s /\ matches (rfc Tabsolute_URI) s /\ uri_rejects Tabsolute_URI s /\ ~ uri_accepts Tabsolute_URI s.
+Proof. exact UriProof.complete_refuted_absolute_URI. Qed.
+Print Assumptions C20_complete_refuted_absolute_URI.
 
 (* ---- IPv4address is exact: accepted iff derivable from RFC 3986 IPv4address ---- *)
 Theorem C20_complete_IPv4address : forall s, bytes_ok s -> matches (rfc TIPv4address) s -> uri_accepts TIPv4address s.
@@ -86,3 +97,24 @@ Theorem C20_numeral_dec_octet : forall ds, IntegerSpec.unsigned_numeral ds -> (I
   matches Rfc3986.dec_octet ds.
 Proof. exact UriProof.numeral_dec_octet. Qed.
 Print Assumptions C20_numeral_dec_octet.
+
+(* ---- NOT closed (shipped as comments, no theorem):
+
+   C20_complete_IPv6address (targeted):
+       forall s, bytes_ok s -> matches (rfc TIPv6address) s -> uri_accepts TIPv6address s.
+     Missing: a completeness argument for ordered choice (an earlier alternative of uri::IPv6address must be shown
+     to FAIL, not merely to be unnecessary, on every string of a later alternative) and for the greedy
+     opt< h16, rep_opt< n, colon, h16 > > prefixes.  Supported today only by the oracle comparison of the check
+     (every IPv6 alternative, every group count 0..8 on both sides of "::", embedded IPv4 tails, all single-edit
+     mutations, all strings of length <= 5 over the class representatives): no disagreement.
+
+   C20_complete_partial (URI, URI_reference, absolute_URI), the statement that is expected to be TRUE:
+       forall t s, t is one of TURI / TURI_reference / Tabsolute_URI -> bytes_ok s -> matches (rfc t) s ->
+         ~ (the RFC reading of s has an authority whose host is a reg-name with an IPv4address as PROPER prefix) ->
+         uri_accepts t s.
+     The unrestricted statement is refuted (C20_complete_refuted).  Missing: the same completeness argument as
+     above for sor<> / star<> / opt<> over the whole URI table.  What IS closed towards it: C20_exact_IPv4address
+     (both directions for the IPv4address production, through the C15 model of maximum_rule) and the five
+     soundness theorems.  The check classifies every oracle disagreement against exactly the excluded class
+     (host = reg-name with IPv4address proper prefix AND the same input with a non-IPv4 host is accepted);
+     anything outside it is reported as a new violation. *)
